@@ -248,6 +248,9 @@ type Samples struct {
 
 func (s *Samples) Add(v any) {
 	s.seen++
+	if str, ok := v.(string); ok && len(str) > 600 {
+		v = str[:600] + fmt.Sprintf("... (%d bytes)", len(str))
+	}
 	if s.Max == 0 {
 		s.Max = 5
 	}
